@@ -86,7 +86,7 @@ var properties = map[string]*Property{
 		NotDecided: "value/position equality of writer and reader (bit arithmetic).",
 	},
 	"C15": {
-		Rules:      []string{"R-TABLES", "R-NAMECMP", "R-LEVELS", "R-CHAIN-PACK"},
+		Rules:      []string{"R-TABLES", "R-NAMECMP", "R-LEVELS", "R-CHAIN-PACK", "R-NAMESET"},
 		Decided:    "name->type->name is the identity on canonical names and upper-cases before lookup; every type maps to a constructor in every factory; no codec variant is selected by a case-sensitive comparison of the user's spelling. In GetType the slot of a token in the packed chain advances only for non-NONE tokens (NONE fillers are removed).",
 		NotDecided: "removal of NONE fillers (loop in GetType); stream byte equality.",
 	},
